@@ -1187,6 +1187,7 @@ func runC20(c *Ctx) {
 		}
 		c.Eval(len(b) > 0, "fnv:"+s)
 	})
+	runC20S3(c, g) // session-3 extension: display form (Entry.String), see c20_s3.go
 }
 
 func init() { register("C20", runC20) }
